@@ -539,10 +539,12 @@ class RecLink:
 
     def __init__(self):
         self.sent = []
+        self.objs = []          # the packet objects themselves: a driver queues the object, not a copy
 
     def send_packet(self, pk):
         h1 = pk.header
         self.sent.append((h1, pk.get_header(), bytes(pk.data)))
+        self.objs.append(pk)
         return True
 
 
@@ -575,6 +577,7 @@ class Env:
 
     def execute(self, cmd, args):
         del self.link.sent[:]
+        del self.link.objs[:]
         try:
             COMMANDS[cmd][1](self.cf, *args)
             exc = None
@@ -962,6 +965,74 @@ def part_cmd(job):
     return p
 
 
+# ---- sequences of commands on one object -------------------------------------------------------------
+
+def base_args(cmd):
+    return tuple(prm.base for prm in COMMANDS[cmd][0])
+
+
+def seq_case(p, env, seq, v, xm):
+    """Run the commands of seq (base arguments) one after the other on one Crazyflie; every one of them is judged like
+    a command issued alone, and a packet handed to the link earlier is not rewritten by a later command."""
+    env.fresh_commander()
+    env.configure(v, xm)
+    held = []
+    rp = {'part': 'seq', 'seq': list(seq), 'version': v, 'xmode': xm}
+    names = '+'.join(c.split('.', 1)[1] for c in seq)
+    for i, cmd in enumerate(seq):
+        args = base_args(cmd)
+        exc, pkts = env.execute(cmd, args)
+        objs = list(env.link.objs)
+        probs, outcome, _ = judge(cmd, args, v, xm, exc, pkts)
+        if i == len(seq) - 1:
+            p.case(key=('seq', seq, v, xm), outcome=('seq', cmd, outcome))
+        for sig, what in probs:
+            p.violation('seq:after_%s:%s' % ('first' if i == 0 else seq[i - 1].split('.', 1)[1], sig),
+                        'sequence %s on one object, step %d: %s' % (names, i + 1, what), rp)
+        for cmd0, snaps, objs0 in held:
+            for snap, o in zip(snaps, objs0):
+                try:
+                    now = (o.header, o.get_header(), bytes(o.data))
+                except Exception as e:  # noqa
+                    now = repr(e)
+                if now != snap:
+                    p.violation('seq:queued_packet_rewritten:%s' % cmd0,
+                                'sequence %s on one object: the packet handed to the link by %s (header 0x%02x data %s) reads %r '
+                                'after %s was issued - a link driver that has not transmitted it yet sends the wrong command'
+                                % (names, cmd0, snap[0], snap[2].hex(), now, cmd), rp)
+        held.append((cmd, pkts, objs))
+
+
+def seq_jobs(tier):
+    cmds = list(COMMANDS)
+    seqs = [(a, b) for a in cmds for b in cmds]
+    if tier != 'quick':
+        gen = [c for c in cmds if c.startswith('commander.') or c.startswith('hl.')]
+        seqs += [(a, b, c) for a in gen for b in gen for c in gen]
+    nsh = 8 if tier == 'quick' else 32
+    return [(tier, s, nsh) for s in range(nsh)], len(seqs), seqs
+
+
+def part_seq(job):
+    tier, shard, nsh = job
+    p = Partial()
+    env = get_env()
+    old_stdout = sys.stdout
+    sys.stdout = _Null()
+    try:
+        with warnings.catch_warnings(), np.errstate(all='ignore'):
+            warnings.simplefilter('ignore')
+            for i, seq in enumerate(seq_jobs(tier)[2]):
+                if i % nsh != shard:
+                    continue
+                for v in V_SWITCH:
+                    for xm in ((None, True) if 'commander.send_setpoint' in seq else (None,)):
+                        seq_case(p, env, seq, v, xm)
+    finally:
+        sys.stdout = old_stdout
+    return p
+
+
 # ---- headers ---------------------------------------------------------------------------------------
 
 def _hdr_ok(h, port, chan):
@@ -1108,7 +1179,7 @@ def _header_jobs():
 
 def _dispatch(job):
     kind, arg = job
-    return part_cmd(arg) if kind == 'cmd' else part_header(arg)
+    return part_cmd(arg) if kind == 'cmd' else part_seq(arg) if kind == 'seq' else part_header(arg)
 
 
 def run(ck):
@@ -1125,8 +1196,11 @@ def run(ck):
                '9^4 x 3 quaternion lattice for full state. Headers: 16 ports x 4 channels through the constructor (all 256 '
                'header bytes), constructor with data, set_header, port/channel setters in both orders and singly, from a '
                'fresh packet and from each of the 64 previous states. distinct = distinct (command, version, xmode, args) '
-               'or (header route, previous state, port, channel) tuples'
-               % (len(COMMANDS), len(F_FULL), len(X_FULL), len(THRUST_FULL), len(BS_FULL), V_QUICK))
+               'or (header route, previous state, port, channel) tuples. Sequences: every ordered pair of the %d commands '
+               '(thorough: every ordered triple of the Commander / HighLevelCommander commands) with base arguments on one '
+               'Crazyflie at the versions around each switch: each command judged as if issued alone, packets handed to '
+               'the link earlier not rewritten'
+               % (len(COMMANDS), len(F_FULL), len(X_FULL), len(THRUST_FULL), len(BS_FULL), V_QUICK, len(COMMANDS)))
     ck.assume('reference wire table (port, channel, type byte, struct layout, scale, sign, version switch) is an '
               'independent transcription of the firmware structs written in this check; the firmware itself is not run')
     ck.assume('legacy generic setpoint types 1/2/5 (yaw rate negated) are what protocol versions <= 8 understand, new '
@@ -1137,7 +1211,9 @@ def run(ck):
               'quaternion field is decoded by an independent decompressor, tolerance 2 steps of 1/511/sqrt(2)')
     ck.assume('fixed-point fields: |wire - value*1000| < 1 unit; physical unit of the full-state rates is not judged')
     jobs, notes = _jobs(ck.tier)
-    alljobs = [('cmd', j) for j in jobs] + [('hdr', j) for j in _header_jobs()]
+    sjobs, nseq, _ = seq_jobs(ck.tier)
+    alljobs = [('cmd', j) for j in jobs] + [('hdr', j) for j in _header_jobs()] + [('seq', j) for j in sjobs]
+    ck.note('command_sequences_on_one_object', nseq)
     ck.pmap(_dispatch, alljobs)
     ck.exhaustive = True
     ck.note('commands', sorted(COMMANDS))
@@ -1162,6 +1238,22 @@ def replay(ck, data):
         _hdr_case(p, Env(), data['how'], prev, data['port'], data['chan'])
         print('header case %r -> %s' % (data, 'ok' if not p.violations else p.violations[0]['what']))
         for v in p.violations:
+            ck.violation(v['sig'], v['what'], data)
+        return
+    if data.get('part') == 'seq':
+        p = Partial()
+        old = sys.stdout
+        sys.stdout = _Null()
+        try:
+            with warnings.catch_warnings(), np.errstate(all='ignore'):
+                warnings.simplefilter('ignore')
+                seq_case(p, Env(), tuple(data['seq']), data['version'], data['xmode'])
+        finally:
+            sys.stdout = old
+        print('sequence %r protocol=%r xmode=%r -> %s' % (data['seq'], data['version'], data['xmode'],
+                                                         'conforms' if not p.violations else ''))
+        for v in p.violations:
+            print('  VIOLATES %s: %s' % (v['sig'], v['what']))
             ck.violation(v['sig'], v['what'], data)
         return
     cmd, v, xm = data['cmd'], data['version'], data['xmode']
